@@ -1,1 +1,353 @@
-/- C08 — property theorems (stub: not built yet) -/
+/- C08 — Observability lifecycle is exactly-once with bounded labels: theorems about the model of
+   ServeHTTP (`Model/Serve.lean`) against the oracle (`Spec/Obs.lean`). The obligations on the
+   *regenerated* skeleton of the real code are in `Tie/C08.lean`. -/
+import Rivaas.Spec.Obs
+
+namespace Rivaas.C08
+open Rivaas.Serve Rivaas.Obs
+
+/-- the lookups return registered routes (C01/C11/C13 are about that); the static table is keyed by the path -/
+def RoutesIn (f : Facts) (pats : List Bytes) : Prop :=
+  (∀ rt, f.lookupStatic = some rt → rt.pattern ∈ pats) ∧
+  (∀ rt, f.matchDynamic = some rt → rt.pattern ∈ pats) ∧
+  (∀ rt, f.treeStatic = some rt → f.path ∈ pats) ∧
+  (∀ rt, f.treeRoute = some rt → rt.pattern ∈ pats) ∧
+  (∀ rt, f.vCache = some rt → rt.pattern ∈ pats) ∧
+  (∀ rt, f.vRoute = some rt → rt.pattern ∈ pats)
+
+/-- what a faithful wrapper lets the end callback read (see `status_size_truthful` below) -/
+def seen (f : Facts) (o : Out) : Seen :=
+  ⟨o.log, o.status, o.size, if f.obs && f.live then some (o.status, o.size) else none⟩
+
+def isHandler : MEv → Bool | .handler .. => true | _ => false
+
+theorem lemma_chainLog_handlers (rt : Route) (c v : Bytes) (p : Prog) : ∀ e ∈ chainLog rt c v p, isHandler e = true := by
+  intro e he
+  unfold chainLog at he
+  cases p <;> simp [Prog.resp] at he <;> (try rcases he with rfl | rfl) <;> (try subst he) <;> rfl
+
+theorem lemma_notFound_handlers (f : Facts) (p : Prog) (l : Option Bytes) :
+    (∀ e ∈ (notFound f p l).hs, isHandler e = true) ∧ (notFound f p l).label = l := by
+  unfold notFound
+  split
+  · simp
+  · split
+    · simp [isHandler]
+    · simp
+
+/-- where a matched route and its label come from -/
+def Src (f : Facts) (rt : Route) (l : Bytes) : Prop :=
+  (l = rt.pattern ∧ (f.lookupStatic = some rt ∨ f.matchDynamic = some rt ∨ f.treeRoute = some rt ∨
+      f.vCache = some rt ∨ f.vRoute = some rt)) ∨
+  (l = f.path ∧ f.treeStatic = some rt)
+
+theorem lemma_q1 (f : Facts) (rt : Route) (h : f.q1 = some rt) : f.lookupStatic = some rt := by
+  unfold Facts.q1 at h; split at h <;> (try split at h) <;> simp_all
+theorem lemma_q2 (f : Facts) (rt : Route) (h : f.q2 = some rt) : f.matchDynamic = some rt := by
+  unfold Facts.q2 at h; split at h <;> simp_all
+theorem lemma_q3 (f : Facts) (rt : Route) (h : f.q3 = some rt) : f.treeStatic = some rt := by
+  unfold Facts.q3 at h; split at h <;> (try split at h) <;> simp_all
+theorem lemma_q4 (f : Facts) (rt : Route) (h : f.q4 = some rt) : f.treeRoute = some rt := by
+  unfold Facts.q4 at h; split at h <;> simp_all
+
+/-- the three kinds of exit of the dispatch -/
+def Exit (a : Bool) (f : Facts) (p : Prog) (d : Disp) : Prop :=
+  (∃ rt c v l, d = matched rt c v l p ∧ Src f rt l) ∨
+  (∃ rt, d = gone a f rt ∧ (f.vCache = some rt ∨ f.vRoute = some rt)) ∨
+  (∃ lab, d = notFound f p lab ∧ (lab = some sNotFound ∨ (a = true ∧ lab = none)))
+
+theorem lemma_versioned_cases (a : Bool) (f : Facts) (p : Prog) : Exit a f p (versioned a f p) := by
+  unfold versioned
+  cases hc : f.vCache with
+  | some rt =>
+    simp only
+    split
+    · exact Or.inr (Or.inl ⟨rt, rfl, Or.inl rfl⟩)
+    · exact Or.inl ⟨rt, _, _, _, rfl, Or.inl ⟨rfl, by simp⟩⟩
+  | none =>
+    simp only
+    cases hr : f.vRoute with
+    | none =>
+      simp only
+      refine Or.inr (Or.inr ⟨_, rfl, ?_⟩)
+      cases a <;> simp
+    | some rt =>
+      simp only
+      split
+      · exact Or.inr (Or.inl ⟨rt, rfl, Or.inr rfl⟩)
+      · exact Or.inl ⟨rt, _, _, _, rfl, Or.inl ⟨rfl, by simp⟩⟩
+
+theorem lemma_dispatch_cases (a : Bool) (f : Facts) (p : Prog) : Exit a f p (dispatch a f p) := by
+  unfold dispatch
+  cases h1 : f.q1 with
+  | some rt => exact Or.inl ⟨rt, _, _, _, rfl, Or.inl ⟨rfl, Or.inl (lemma_q1 f rt h1)⟩⟩
+  | none =>
+  simp only
+  cases h2 : f.q2 with
+  | some rt => exact Or.inl ⟨rt, _, _, _, rfl, Or.inl ⟨rfl, Or.inr (Or.inl (lemma_q2 f rt h2))⟩⟩
+  | none =>
+  simp only
+  cases h3 : f.q3 with
+  | some rt => exact Or.inl ⟨rt, _, _, _, rfl, Or.inr ⟨rfl, lemma_q3 f rt h3⟩⟩
+  | none =>
+  simp only
+  cases h4 : f.q4 with
+  | some rt => exact Or.inl ⟨rt, _, _, _, rfl, Or.inl ⟨rfl, Or.inr (Or.inr (Or.inl (lemma_q4 f rt h4)))⟩⟩
+  | none =>
+  simp only
+  split
+  · exact lemma_versioned_cases a f p
+  · exact Or.inr (Or.inr ⟨_, rfl, Or.inl rfl⟩)
+
+/-- every dispatch path logs handler events only -/
+theorem lemma_dispatch_handlers (a : Bool) (f : Facts) (p : Prog) : ∀ e ∈ (dispatch a f p).hs, isHandler e = true := by
+  rcases lemma_dispatch_cases a f p with ⟨rt, c, v, l, hd, _⟩ | ⟨rt, hd, _⟩ | ⟨lab, hd, _⟩
+  · rw [hd]; exact lemma_chainLog_handlers _ _ _ _
+  · rw [hd]; simp [gone]
+  · rw [hd]; exact (lemma_notFound_handlers _ _ _).1
+
+/-- after the fix every dispatch path reaches an end callback -/
+theorem lemma_dispatch_label_some (f : Facts) (p : Prog) : ∃ l, (dispatch false f p).label = some l := by
+  rcases lemma_dispatch_cases false f p with ⟨rt, c, v, l, hd, _⟩ | ⟨rt, hd, _⟩ | ⟨lab, hd, hl⟩
+  · rw [hd]; exact ⟨l, rfl⟩
+  · rw [hd]; exact ⟨_, by simp [gone]⟩
+  · rw [hd, (lemma_notFound_handlers _ _ _).2]
+    rcases hl with rfl | ⟨h, _⟩
+    · exact ⟨_, rfl⟩
+    · cases h
+
+/-- … with a bounded label -/
+theorem lemma_dispatch_label (f : Facts) (p : Prog) (pats : List Bytes) (h : RoutesIn f pats) :
+    ∃ l, (dispatch false f p).label = some l ∧ labelOK pats l = true := by
+  obtain ⟨h1, h2, h3, h4, h5, h6⟩ := h
+  have hs : labelOK pats sNotFound = true := by simp [labelOK, sentinels, sNotFound]
+  have hm : ∀ l, l ∈ pats → labelOK pats l = true := by intro l hl; simp [labelOK, hl]
+  rcases lemma_dispatch_cases false f p with ⟨rt, c, v, l, hd, hsrc⟩ | ⟨rt, hd, hsrc⟩ | ⟨lab, hd, hl⟩
+  · rw [hd]
+    refine ⟨l, rfl, hm l ?_⟩
+    rcases hsrc with ⟨rfl, hs1 | hs2 | hs3 | hs4 | hs5⟩ | ⟨rfl, hs6⟩
+    · exact h1 _ hs1
+    · exact h2 _ hs2
+    · exact h4 _ hs3
+    · exact h5 _ hs4
+    · exact h6 _ hs5
+    · exact h3 _ hs6
+  · rw [hd]
+    refine ⟨rt.pattern, by simp [gone], hm _ ?_⟩
+    rcases hsrc with h | h
+    · exact h5 _ h
+    · exact h6 _ h
+  · rw [hd, (lemma_notFound_handlers _ _ _).2]
+    rcases hl with rfl | ⟨h, _⟩
+    · exact ⟨_, rfl, hs⟩
+    · cases h
+
+theorem lemma_filter_handlers (hs : List MEv) (h : ∀ e ∈ hs, isHandler e = true) :
+    hs.filter Obs.isStart = [] ∧ hs.filter Obs.isWrap = [] ∧ hs.filter Obs.isEnd = [] ∧
+    hs.all (fun e => !Obs.isStart e && !Obs.isWrap e && !Obs.isEnd e) = true := by
+  refine ⟨?_, ?_, ?_, ?_⟩
+  · rw [List.filter_eq_nil_iff]; intro e he; have := h e he; cases e <;> simp_all [isHandler, Obs.isStart]
+  · rw [List.filter_eq_nil_iff]; intro e he; have := h e he; cases e <;> simp_all [isHandler, Obs.isWrap]
+  · rw [List.filter_eq_nil_iff]; intro e he; have := h e he; cases e <;> simp_all [isHandler, Obs.isEnd]
+  · rw [List.all_eq_true]; intro e he; have := h e he; cases e <;> simp_all [isHandler, Obs.isStart, Obs.isWrap, Obs.isEnd]
+
+/-- **Main theorem (model level).** For every answer of the lookups (every configuration: compilation on/off,
+    versioning on/off, sunset, NoRoute set or not; every request class) and every handler program, the
+    repaired ServeHTTP satisfies the whole per-request oracle: callbacks only when a recorder is installed, exactly
+    one start first, no wrap/end for an excluded request, otherwise exactly one wrap right after the start and
+    exactly one end callback, last, with a registered pattern or a sentinel as label, on the wrapped writer. -/
+theorem serve_meets_spec (f : Facts) (p : Prog) (pats : List Bytes) (h : RoutesIn f pats) :
+    specOK f.obs f.live pats (seen f (serve f p)) = true := by
+  obtain ⟨l, hl, hlab⟩ := lemma_dispatch_label f p pats h
+  have hh := lemma_dispatch_handlers false f p
+  obtain ⟨f1, f2, f3, f4⟩ := lemma_filter_handlers _ hh
+  have hall : ∀ q : MEv → Bool, (∀ e, isHandler e = true → q e = true) → (dispatch false f p).hs.all q = true := by
+    intro q hq; rw [List.all_eq_true]; intro e he; exact hq e (hh e he)
+  unfold specOK seen serve serveWith
+  simp only [hl, endG, pre]
+  cases hobs : f.obs <;> cases hlive : f.live
+  · simpa using f4
+  · simpa using f4
+  · simp [Obs.isStart, Obs.isWrap, Obs.isEnd, List.filter_cons, f1]
+    intro e he; have := hh e he; cases e <;> simp_all [isHandler]
+  · simp [Obs.isStart, Obs.isWrap, Obs.isEnd, List.filter_append, f1, f2, f3, List.filter_cons, hlab,
+      List.getLast?_cons_cons, List.getLast?_append]
+
+/-- non-vacuity of `RoutesIn`: a versioned request that finds no route in its version tree -/
+example : RoutesIn { obs := true, live := true, useCompiled := false, hasStatic := false, lookupStatic := none,
+    matchDynamic := none, tree := true, treeCompiled := false, treeStatic := none, treeRoute := none,
+    versionEngine := true, vcTree := true, version := "v1".toList, vCache := none, vRoute := none, sunset := false,
+    allowed := false, noRoute := false, detected := "v1".toList, path := "/vmiss".toList } ["/vs".toList] := by
+  simp [RoutesIn]
+
+/-- `#OnRequestEnd == #OnRequestStart(state != nil)`, per request -/
+theorem end_count_eq_live_starts (f : Facts) (p : Prog) :
+    ((serve f p).log.filter Obs.isEnd).length = ((serve f p).log.filter (· == MEv.start true)).length := by
+  have hh := lemma_dispatch_handlers false f p
+  obtain ⟨_, _, f3, _⟩ := lemma_filter_handlers _ hh
+  have f5 : (dispatch false f p).hs.filter (· == MEv.start true) = [] := by
+    rw [List.filter_eq_nil_iff]; intro e he; have := hh e he; cases e <;> simp_all [isHandler]
+  obtain ⟨l, hl⟩ := lemma_dispatch_label_some f p
+  unfold serve serveWith
+  simp only [hl, endG, pre]
+  cases hobs : f.obs <;> cases hlive : f.live <;>
+    simp [Obs.isEnd, List.filter_append, f3, f5, List.filter_cons]
+
+/-- **Gauge and spans over histories.** Whatever sequence of requests was served (any configurations, any
+    classes), a recorder that opens a span and increments the active-requests counter when a request starts with
+    a state and closes/decrements in the end callback is balanced when the server is idle. -/
+theorem gauge_zero_spans_balanced (hist : List (Facts × Prog)) :
+    (hist.foldl (fun t (fp : Facts × Prog) => t.run (serve fp.1 fp.2).log) ({} : Tele)).quiescent = true := by
+  have step : ∀ (t : Tele) (f : Facts) (p : Prog), t.quiescent = true → (t.run (serve f p).log).quiescent = true := by
+    intro t f p ht
+    have hh := lemma_dispatch_handlers false f p
+    have hrun : ∀ (hs : List MEv) (t : Tele), (∀ e ∈ hs, isHandler e = true) → t.run hs = t := by
+      intro hs
+      induction hs with
+      | nil => intro t _; rfl
+      | cons e r ih =>
+        intro t h
+        have he := h e (by simp)
+        have : t.step e = t := by cases e <;> simp_all [isHandler, Tele.step]
+        simp only [Tele.run, List.foldl_cons, this]
+        exact ih t (fun e' he' => h e' (by simp [he']))
+    obtain ⟨l, hl⟩ := lemma_dispatch_label_some f p
+    unfold serve serveWith
+    simp only [hl, endG, pre]
+    have happ : ∀ (a b : List MEv) (t : Tele), t.run (a ++ b) = (t.run a).run b := by
+      intro a b t; simp [Tele.run, List.foldl_append]
+    simp only [Tele.quiescent, Bool.and_eq_true, beq_iff_eq] at ht ⊢
+    cases hobs : f.obs <;> cases hlive : f.live <;>
+      simp [happ, hrun _ _ hh, Tele.run, Tele.step, ht.1, ht.2]
+    omega
+  generalize hq : ({} : Tele) = t0
+  have h0 : t0.quiescent = true := by subst hq; rfl
+  clear hq
+  induction hist generalizing t0 with
+  | nil => exact h0
+  | cons fp rest ih =>
+    simp only [List.foldl_cons]
+    exact ih _ (step t0 fp.1 fp.2 h0)
+
+/-! ### the shipped code (before commit 91ac4e5): finding K08 -/
+
+/-- the requests on which the shipped code differs: nothing in the main tree, a version tree selected, and
+    either no route in it or a version past its sunset date -/
+def D_K08 (f : Facts) : Bool :=
+  f.q1.isNone && f.q2.isNone && f.q3.isNone && f.q4.isNone && f.versionEngine && f.vcTree &&
+  ((f.vCache.isNone && f.vRoute.isNone) || f.sunset)
+
+/-- outside the K08 class the shipped code and the repaired code behave the same -/
+theorem asIs_partial (f : Facts) (p : Prog) (h : D_K08 f = false) : serveAsIs f p = serve f p := by
+  unfold serveAsIs serve serveWith
+  have : dispatch true f p = dispatch false f p := by
+    unfold dispatch versioned gone
+    unfold D_K08 at h
+    cases h1 : f.q1 <;> cases h2 : f.q2 <;> cases h3 : f.q3 <;> cases h4 : f.q4 <;> simp only <;>
+    cases hv : f.versionEngine <;> cases ht : f.vcTree <;> cases hc : f.vCache <;> cases hr : f.vRoute <;>
+    cases hs : f.sunset <;> simp_all
+  rw [this]
+
+def fVerMiss : Facts :=
+  { obs := true, live := true, useCompiled := false, hasStatic := false, lookupStatic := none,
+    matchDynamic := none, tree := true, treeCompiled := false, treeStatic := none, treeRoute := none,
+    versionEngine := true, vcTree := true, version := "v1".toList, vCache := none, vRoute := none, sunset := false,
+    allowed := false, noRoute := false, detected := "v1".toList, path := "/vmiss".toList }
+
+def fSunsetStatic : Facts :=
+  { fVerMiss with version := "v0".toList, vCache := some ⟨24, "/vs".toList⟩, sunset := true, path := "/vs".toList }
+def fSunsetParam : Facts :=
+  { fVerMiss with version := "v0".toList, vRoute := some ⟨25, "/vd/:id".toList⟩, sunset := true, path := "/vd/7".toList }
+
+/-- K08 witnesses (replayed on the implementation: corpus/C08/k08.case): start without end on the three exits -/
+theorem asIs_witness_not_found : specOK true true ["/vs".toList] (seen fVerMiss (serveAsIs fVerMiss (.explicit 200 5))) = false := by decide
+theorem asIs_witness_sunset_static : specOK true true ["/vs".toList] (seen fSunsetStatic (serveAsIs fSunsetStatic (.explicit 200 5))) = false := by decide
+theorem asIs_witness_sunset_param : specOK true true ["/vd/:id".toList] (seen fSunsetParam (serveAsIs fSunsetParam (.explicit 200 5))) = false := by decide
+/-- …and the gauge drifts: after the three witnesses one span per request is still open -/
+theorem asIs_gauge_drifts :
+    ([fVerMiss, fSunsetStatic, fSunsetParam].foldl (fun t f => t.run (serveAsIs f (.explicit 200 5)).log) ({} : Tele)).active = 3 := by decide
+
+/-! ### the wrapper reports what the client received -/
+
+theorem lemma_rw_inv (ops : List WOp) (rw : RW)
+    (hinv : (rw.written = false → rw.under = {} ∧ rw.size = 0) ∧
+            (rw.written = true → rw.under.status = some rw.StatusCode ∧ rw.StatusCode ≠ 0 ∧ rw.statusCode ≠ 0) ∧
+            rw.under.size = rw.size)
+    (hvalid : ∀ c, WOp.header c ∈ ops → c ≠ 0) :
+    let r := rw.run ops
+    (r.written = false → r.under = {} ∧ r.size = 0) ∧
+    (r.written = true → r.under.status = some r.StatusCode ∧ r.StatusCode ≠ 0 ∧ r.statusCode ≠ 0) ∧
+    r.under.size = r.size := by
+  induction ops generalizing rw with
+  | nil => exact hinv
+  | cons op rest ih =>
+    simp only [RW.run, List.foldl_cons]
+    apply ih
+    · obtain ⟨h1, h2, h3⟩ := hinv
+      cases op with
+      | header c =>
+        have hc : c ≠ 0 := hvalid c (by simp)
+        cases hw : rw.written
+        · obtain ⟨hu, hs⟩ := h1 hw
+          simp [RW.step, hw, hu, hs, Wire.step, RW.StatusCode, hc]
+        · simp [RW.step, hw]; exact ⟨fun h => absurd hw (by simp [h]), h2, h3⟩
+      | write n =>
+        cases hw : rw.written
+        · obtain ⟨hu, hs⟩ := h1 hw
+          simp [RW.step, hw, hu, hs, Wire.step, RW.StatusCode]
+        · obtain ⟨hst, hne, hne'⟩ := h2 hw
+          simp [RW.step, hw, Wire.step, hst, h3, RW.StatusCode, hne'] at *
+          exact ⟨hst, hne⟩
+    · intro c hc; exact hvalid c (by simp [hc])
+
+/-- **status and size truthful**: for every sequence of WriteHeader/Write calls with valid status codes (net/http
+    panics on code 0) the wrapper's StatusCode()/Size() equal the status and the number of body bytes the client
+    received — first WriteHeader wins, implicit 200 on a bare Write, 200 and 0 bytes when nothing is written -/
+theorem status_size_truthful (ops : List WOp) (hvalid : ∀ c, WOp.header c ∈ ops → c ≠ 0) :
+    let r := (({} : RW).run ops)
+    r.StatusCode = r.under.clientStatus ∧ r.size = r.under.size := by
+  have := lemma_rw_inv ops {} ⟨by simp, by simp, by rfl⟩ hvalid
+  obtain ⟨h1, h2, h3⟩ := this
+  cases hw : (({} : RW).run ops).written
+  · obtain ⟨hu, hs⟩ := h1 hw
+    simp only [hu, hs]
+    have : (({} : RW).run ops).statusCode = 0 ∨ True := Or.inr trivial
+    refine ⟨?_, rfl⟩
+    -- nothing written: statusCode is still 0
+    have hz : ∀ (ops : List WOp) (rw : RW), rw.written = false → rw.statusCode = 0 → (rw.run ops).written = false → (rw.run ops).statusCode = 0 := by
+      intro ops
+      induction ops with
+      | nil => intro rw _ h _; exact h
+      | cons op rest ih =>
+        intro rw hw0 hs0 hend
+        simp only [RW.run, List.foldl_cons] at hend ⊢
+        have hmono : ∀ (ops : List WOp) (rw : RW), rw.written = true → (rw.run ops).written = true := by
+          intro ops
+          induction ops with
+          | nil => intro rw h; exact h
+          | cons op rest ih2 =>
+            intro rw h
+            simp only [RW.run, List.foldl_cons]
+            apply ih2
+            cases op <;> simp [RW.step, h]
+        cases op with
+        | header c =>
+          have : (rw.step (.header c)).written = true := by simp [RW.step, hw0]
+          have := hmono rest _ this
+          simp [RW.run] at this
+          rw [this] at hend; cases hend
+        | write n =>
+          have : (rw.step (.write n)).written = true := by simp [RW.step, hw0]
+          have := hmono rest _ this
+          simp [RW.run] at this
+          rw [this] at hend; cases hend
+    have := hz ops {} rfl rfl hw
+    simp [RW.StatusCode, this, Wire.clientStatus]
+  · obtain ⟨hst, _, _⟩ := h2 hw
+    exact ⟨by simp [Wire.clientStatus, hst], h3.symm⟩
+
+/-- non-vacuity: the probe programs are valid op sequences and exercise every branch of the wrapper -/
+example : (({} : RW).run (Prog.twice 201 17).ops).StatusCode = 201 ∧ (({} : RW).run (Prog.twice 201 17).ops).size = 17 := by decide
+example : (({} : RW).run Prog.silent.ops).StatusCode = 200 := by decide
+
+end Rivaas.C08
